@@ -171,3 +171,9 @@ func zzThreshLine(th uint16) string {
 	}
 	return "triggeredthresh: 65535\n"
 }
+
+// replay entries of this file (registered here so that the file can be left out
+// on its own when it does not compile against the tree under check)
+func init() {
+	zzEntries["ZZ_C11_start"] = ZZ_C11_start
+}
